@@ -84,7 +84,7 @@ def expected_channels(mode, keys):
     return tr, ch
 
 
-def make_export(qs, mode, anacrusis="shift", min_ppq=0, pickup=False, pin_second=False):
+def make_export(qs, mode, anacrusis="shift", min_ppq=0, pickup=False, pin_second=False, grace=False):
     """parts with divisions qs (one per part), each with one note in voice 1 and one in symbolic voice."""
     n_parts = len(qs)
     names = []
@@ -135,10 +135,15 @@ def make_export(qs, mode, anacrusis="shift", min_ppq=0, pickup=False, pin_second
             nb = S.Note(steps[1], 4 + i, alter=None, id="b%d" % i, voice=v)
             part.add(na, ona, ona + dua)
             part.add(nb, onb, onb + dub)
+            if i == 0 and grace:
+                # a grace note (zero duration) before note a: on and off share a tick, the on must come first
+                part.add(S.GraceNote("acciaccatura", steps[2], 4, id="g0", voice=1), ona, ona)
             parts.append(part)
             shift = first_len if pickup else 0  # quarter_map is 0 at the first full measure
             for (nid, on, du, pitch, voice) in (("a", ona, dua, 12 * (5 + i) + 0, 1), ("b", onb, dub, 12 * (5 + i) + 2, v)):
                 exp.append(dict(part=i, voice=voice, pitch=pitch, on=(on - shift, q), off=(on + du - shift, q)))
+            if i == 0 and grace:
+                exp.append(dict(part=0, voice=1, pitch=12 * 5 + 4, on=(ona - shift, q), off=(ona - shift, q)))
         arg = parts[0] if n_parts == 1 else S.Score(parts)
         mf = must_not_raise(EM.save_score_midi, arg, None, part_voice_assign_mode=mode, velocity=vel,
                             anacrusis_behavior=anacrusis, minimum_ppq=min_ppq, _what="save_score_midi")
@@ -172,6 +177,9 @@ def make_export(qs, mode, anacrusis="shift", min_ppq=0, pickup=False, pin_second
             check(len(offs) == 1, "exactly one note_off per sounding note", e["pitch"], len(offs))
             check((offs[0][1] - zero_shift_num) * q == off_tick_num, "offset tick is not ppq * quarter position", e, offs[0][1])
             check(offs[0][0] == ti and offs[0][2].channel == m.channel, "note_off in another track/channel")
+            i_on = [k for k, ev in enumerate(evs) if ev[2] is m][0]
+            i_off = [k for k, ev in enumerate(evs) if ev[2] is offs[0][2]][0]
+            check(i_on < i_off, "note_off written before its note_on (zero-length / grace note)", e["pitch"])
             e["track"], e["channel"] = ti, m.channel
         # grouping of notes into tracks/channels per mode (as a partition: which notes share track / channel)
         for a in exp:
@@ -229,7 +237,7 @@ def make_trch(mode):
 
 
 def _exp_inst(tier):
-    out = [{"qs": [2], "mode": 0}, {"qs": [3], "mode": 5, "min_ppq": 10}, {"qs": [2, 3], "mode": 0, "pin_second": True},
+    out = [{"qs": [2], "mode": 0, "grace": True}, {"qs": [3], "mode": 5, "min_ppq": 10, "grace": True}, {"qs": [2, 3], "mode": 0, "pin_second": True},
            {"qs": [4, 6], "mode": 2, "pin_second": True}, {"qs": [2], "mode": 4, "pickup": True}]
     if tier != "quick":
         out += [{"qs": [2, 3], "mode": 0}, {"qs": [4, 6], "mode": 2}, {"qs": [2, 3], "mode": 3}, {"qs": [12, 8], "mode": 5}, {"qs": [1], "mode": 1},
